@@ -12,6 +12,7 @@ import (
 	"fmt"
 	"net"
 	"net/http"
+	"net/url"
 	"strconv"
 	"strings"
 
@@ -257,9 +258,14 @@ func (c *rigClient) Addr() string { return c.pc.LocalAddr().String() }
 
 // request performs one HTTP exchange and returns exactly what the server's handler wrote.
 func (c *rigClient) request(method, host, path string, hdr http.Header) (*vh3.Response, error) {
-	req, _ := http.NewRequest(method, "https://placeholder"+path, nil)
-	req.Host = host
-	req.URL.Host = host
+	// build the request the way quic-go/http3 does from the pseudo-headers (requestFromHeaders):
+	// :path goes through url.ParseRequestURI (no fragment handling), :authority becomes Host
+	u, err := url.ParseRequestURI(path)
+	if err != nil {
+		return nil, fmt.Errorf("rig: invalid :path %q: %w", path, err)
+	}
+	u.Host = host
+	req := &http.Request{Method: method, URL: u, Host: host, Header: http.Header{}, Body: http.NoBody}
 	if hdr != nil {
 		req.Header = hdr
 	}
